@@ -172,6 +172,8 @@ def f2_menu():
     m.append(rule(A("p"), [[True, A("q")]]))
     m.append(rule(A("q"), [[True, A("p")]]))
     m.append(rule(A("p"), [[True, A("a")]], p="0.5"))
+    # an AD that names the same atom at two positions (the choices are exclusive: P(p) = 0.2 + 0.3)
+    m.append(ad([("0.2", A("p")), ("0.3", A("p"))]))
     return m
 
 
